@@ -58,8 +58,11 @@ type runner struct {
 	lastLen int
 }
 
-func newRunner(o opt, capacity, U int) *runner {
+func newRunner(o opt, capacity, U int, preCancel bool) *runner {
 	ctx, cancel := context.WithCancel(context.Background())
+	if preCancel {
+		cancel() // a cache constructed on a context that is already done
+	}
 	opts := []func(*storageCfg){}
 	_ = opts
 	var c *storage.FifoMapCache[int, int]
@@ -75,9 +78,10 @@ func newRunner(o opt, capacity, U int) *runner {
 
 type storageCfg struct{}
 
-// close releases the sweeps.  The construction context is deliberately NOT cancelled: the background ticker
+// close releases the sweeps.  The construction context is deliberately NOT cancelled here: the background ticker
 // (period one hour) just stays parked, so that a defect in the cancellation path (property C08's business)
-// cannot disturb the sequential checks.
+// cannot disturb the sequential checks.  Only the small "cancelled-context" family cancels (label k / K): the
+// cache's operations, explicit Sweep included, do not depend on the context, so the model ignores the label.
 func (r *runner) close() { release(r.c); _ = r.cancel }
 
 // waitSweepers waits until no goroutine is inside (or about to enter) FifoMapCache.Sweep
@@ -221,7 +225,8 @@ func runHist(w *cw.Writer, mon int, h hist, tag string) {
 	if nshards > 1 && histCounter%nshards != shard {
 		return // another process of this run executes this history
 	}
-	r := newRunner(h.o, h.cap, h.U)
+	pre := len(h.prog) > 0 && h.prog[0] == "K"
+	r := newRunner(h.o, h.cap, h.U, pre)
 	defer r.close()
 	// watchdog: a sequential history whose operation never returns (a lock left held, a lost wake-up) is a failing
 	// input in its own right; report it with the operation instead of hanging until the runner's time limit
@@ -259,6 +264,12 @@ func runHist(w *cw.Writer, mon int, h hist, tag string) {
 			r.obs()
 		case 'r':
 			r.resize(atoi(p[1:]))
+		case 'k':
+			r.cancel()
+			r.desc = append(r.desc, "construction context cancelled")
+			time.Sleep(200 * time.Microsecond) // let the ticker goroutine leave
+		case 'K':
+			r.desc = append(r.desc, "constructed on an already cancelled context")
 		}
 		if !hooked && p[0] == 's' {
 			r.sweep()
@@ -424,6 +435,40 @@ func main() {
 		}
 		prog = append(prog, "w")
 		runHist(w, mon, hist{o, capacity, U, prog}, "many-partitions")
+	}
+	// cancelled-context family: the same kind of history on a cache whose construction context is cancelled before
+	// construction (K) or at some point of the history (k); kept small so that a defect of the cancellation path
+	// cannot flood the run with goroutines
+	for it := 0; it < 24; it++ {
+		capacity := []int{1, 4, 9, 10, 16, 25}[rng.Intn(6)]
+		o := randOpt(capacity)
+		U := 2*capacity + 3
+		n := 3*capacity + rng.Intn(20)
+		at := rng.Intn(n)
+		var prog []string
+		if it%3 == 0 {
+			prog = append(prog, "K")
+			at = -1
+		}
+		for i := 0; i < n; i++ {
+			if i == at {
+				prog = append(prog, "k")
+			}
+			switch x := rng.Intn(100); {
+			case x < 70:
+				prog = append(prog, fmt.Sprintf("s%d", 1+rng.Intn(U)))
+			case x < 78:
+				prog = append(prog, fmt.Sprintf("d%d", 1+rng.Intn(U)))
+			case x < 92:
+				prog = append(prog, "w")
+			case x < 95 && *prop != "C03":
+				prog = append(prog, fmt.Sprintf("r%d", o.minimum+rng.Intn(2*capacity+3)))
+			default:
+				prog = append(prog, "o")
+			}
+		}
+		prog = append(prog, "w")
+		runHist(w, mon, hist{o, capacity, U, prog}, "cancelled-context")
 	}
 	// C02: Capacity() rounding for every requested capacity in a range, every option
 	if *prop == "C02" {
